@@ -27,7 +27,7 @@ def is_coord_field(label, field):
     return field == "coord" or field.endswith("@coord")
 
 
-def run_group(ctx, rule, methods, field_filter, what, returns=True, appends=True, label_filter=None):
+def run_group(ctx, rule, methods, field_filter, what, returns=True, appends=True, label_filter=None, append_filter=None):
     """Compare the current wiring of `methods` with the reviewed reference; one obligation per record field."""
     ref = WC.load_ref()
     cur = WC.current()
@@ -45,7 +45,7 @@ def run_group(ctx, rule, methods, field_filter, what, returns=True, appends=True
             continue
         rm = {"records": [r for r in ref[m]["records"] if label_filter is None or label_filter(r[0])], "returns": ref[m]["returns"], "appends": ref[m]["appends"]}
         cm = {"records": [r for r in cur[m]["records"] if label_filter is None or label_filter(r[0])], "returns": cur[m]["returns"], "appends": cur[m]["appends"]}
-        diffs = WC.diff_method(rm, cm, field_filter, want_returns=returns, want_appends=appends)
+        diffs = WC.diff_method(rm, cm, field_filter, want_returns=returns, want_appends=appends, append_filter=append_filter)
         nfields = sum(1 for r in cm["records"] for k in r[1] if field_filter(r[0], k)) + (1 if returns else 0) + (1 if appends and cm["appends"] else 0)
         bad = len(diffs)
         for i in range(max(nfields - bad, 0)):
